@@ -206,7 +206,15 @@ def inline_new_temps(func, ref_locals, local_names, score=None, max_candidates=6
                     unsafe = True
             if unsafe:
                 continue
-            if score is not None:
+            guided_ = score is not None
+            if guided_ and Ctx.line_hash is not None and Ctx.ref_hashes:
+                # the reference has no assignment of this shape at all: the local cannot be a renamed temporary of the reference
+                try:
+                    if Ctx.line_hash(a, local_names(func), func) not in Ctx.ref_hashes:
+                        guided_ = False
+                except Exception:
+                    pass
+            if guided_:
                 # guided: the inlining is kept only when it brings the function closer to the reference (a renamed temporary of
                 # the reference must stay)
                 tried = getattr(func, '_inl_tried', set())
@@ -224,7 +232,7 @@ def inline_new_temps(func, ref_locals, local_names, score=None, max_candidates=6
                     if not blk:
                         blk.append(fix(ast.Pass(), a))
                     break
-            if score is not None and score(func) <= before:
+            if guided_ and score(func) <= before:
                 func.body = snapshot.body
                 changed = True          # the tree objects changed: recompute everything, the candidate is remembered as tried
                 break
@@ -1716,7 +1724,148 @@ def rw_none_flag(func, k):
     return True
 
 
-GUIDED = [rw_extract_temp, rw_flatten_comp_filter, rw_first_of_concat, rw_split_tuple_assign, rw_augcomp_to_loop, rw_len_zero, rw_bool_ifexp, rw_singleton_comp, rw_ndenumerate_value, rw_flat_to_ndenumerate, rw_slice_zero, rw_flip_compare, rw_pass_branch, rw_dictcomp_to_loop, rw_none_flag, rw_argcomp_to_loop, rw_hoist_return, rw_get_none, rw_else_after_exit_wrap, rw_else_after_exit_unwrap, rw_comp_to_loop, rw_loop_to_comp, rw_not_compare, rw_demorgan, rw_swap_branches, rw_merge_nested_if, rw_split_and_if, rw_guard_to_swapped_else, rw_swapped_else_to_guard, rw_drop_tail_return, rw_add_tail_return, rw_element_to_index_loop, rw_fuse_loops, rw_late_publication, rw_drop_tail_continue, rw_items_loop, rw_filter_loop, rw_loop_to_update, rw_is_false, rw_hoist_common_tail, rw_sink_common_tail, rw_ifexp_to_if, rw_if_to_ifexp, rw_bool_to_if, rw_kwargs_default, rw_trailing_return, rw_enumerate, rw_return_temp]
+# parameter order of library functions that the package calls with positional arguments (name of the attribute / function -> order)
+KNOWN_SIGNATURES = {
+    'roll': ['a', 'shift', 'axis'], 'rfft': ['a', 'n'], 'irfft': ['a', 'n'], 'fsolve': ['func', 'x0', 'args'], 'default_rng': ['seed'], 'integers': ['low', 'high', 'size'], 'quad': ['func', 'a', 'b'],
+    'squad': ['func', 'a', 'b'], 'encode': ['encoding'], 'ODR': ['data', 'model', 'beta0'], 'RealData': ['x', 'y', 'sx', 'sy'], 'is_zero_within_error': ['sigma'],
+    'lstsq': ['a', 'b'], 'reshape': ['shape'], 'hankel': ['c', 'r'], 'minimize': ['fun', 'x0'], 'least_squares': ['fun', 'x0'], 'zeros': ['shape', 'dtype'], 'ones': ['shape', 'dtype'],
+    'empty': ['shape', 'dtype'], 'array': ['object', 'dtype'], 'vstack': ['tup'], 'bincount': ['x', 'weights', 'minlength'], 'flip': ['m', 'axis'], 'sum': ['a', 'axis'], 'mean': ['a', 'axis'],
+}
+PACKAGE_SIGNATURES = {}
+
+
+def rw_keyword_to_positional(func, k):
+    """f(a, name=b)   ->   f(a, b)      when `name` is the next positional parameter of f (package function or known library signature)"""
+    sites = []
+    for c in ast.walk(func):
+        if not isinstance(c, ast.Call) or not c.keywords or any(isinstance(a, ast.Starred) for a in c.args):
+            continue
+        nm = c.func.attr if isinstance(c.func, ast.Attribute) else (c.func.id if isinstance(c.func, ast.Name) else None)
+        sig = PACKAGE_SIGNATURES.get(nm) or KNOWN_SIGNATURES.get(nm)
+        if not sig:
+            continue
+        is_method = isinstance(c.func, ast.Attribute) and nm in PACKAGE_SIGNATURES and PACKAGE_SIGNATURES[nm] and PACKAGE_SIGNATURES[nm][0] in ('self', 'cls')
+        params = sig[1:] if is_method else sig
+        pos = len(c.args)
+        j = 0
+        while j < len(c.keywords) and pos + j < len(params) and c.keywords[j].arg == params[pos + j]:
+            j += 1
+            sites.append((c, j))
+    if k >= len(sites):
+        return False
+    c, j = sites[k]
+    for _ in range(j):
+        c.args.append(c.keywords.pop(0).value)
+    return True
+
+
+def _fmt_parts(js):
+    """(template, values) of an f-string made of literals and plainly formatted values"""
+    tmpl = ''
+    vals = []
+    for p in js.values:
+        if isinstance(p, ast.Constant) and isinstance(p.value, str):
+            tmpl += p.value.replace('%', '%%')
+        elif isinstance(p, ast.FormattedValue) and p.conversion == -1:
+            spec = ''
+            if p.format_spec is not None:
+                if not (isinstance(p.format_spec, ast.JoinedStr) and all(isinstance(x, ast.Constant) for x in p.format_spec.values)):
+                    return None
+                spec = ''.join(x.value for x in p.format_spec.values)
+            if spec in ('', 's'):
+                tmpl += '%s'
+            elif spec == 'd':
+                tmpl += '%d'
+            elif spec and spec[-1] in 'efg' and all(ch in '0123456789.+- ' for ch in spec[:-1]):
+                tmpl += '%' + spec
+            else:
+                return None
+            vals.append(p.value)
+        else:
+            return None
+    return tmpl, vals
+
+
+def rw_fstring_to_percent(func, k):
+    """f'{a} i f{b}'   ->   '%d i f%d' % (a, b)     (three variants: %d for bare fields, %s for bare fields, concatenation)"""
+    sites = [n for n in ast.walk(func) if isinstance(n, ast.JoinedStr) and _fmt_parts(n) is not None and _fmt_parts(n)[1]]
+    flat = [(n, v) for n in sites for v in (0, 1, 2)]
+    if k >= len(flat):
+        return False
+    n, variant = flat[k]
+    tmpl, vals = _fmt_parts(n)
+    if variant == 0:
+        tmpl = tmpl.replace('%s', '%d')
+    if variant in (0, 1):
+        right = vals[0] if len(vals) == 1 else ast.Tuple(elts=vals, ctx=ast.Load())
+        if len(vals) == 1 and variant == 1 and isinstance(vals[0], ast.Tuple):
+            return True
+        new = ast.BinOp(left=ast.Constant(value=tmpl), op=ast.Mod(), right=right if len(vals) > 1 else (ast.Tuple(elts=vals, ctx=ast.Load()) if variant == 0 and False else right))
+    else:
+        # concatenation: 'a' + str(x) + 'b'  /  'a' + x + 'b' is not derivable in general: only str() wrapped form
+        parts = []
+        for p in n.values:
+            if isinstance(p, ast.Constant):
+                parts.append(p)
+            elif isinstance(p, ast.FormattedValue) and p.format_spec is None:
+                parts.append(p.value)
+            else:
+                return True
+        if len(parts) < 2:
+            return True
+        new = parts[0]
+        for x in parts[1:]:
+            new = ast.BinOp(left=new, op=ast.Add(), right=x)
+    replace_node(func, n, fix(new, n))
+    return True
+
+
+def rw_np_all_any(func, k):
+    """all(<generator>)  <->  np.all([<list comprehension>])      (same for any)"""
+    sites = []
+    for c in ast.walk(func):
+        if isinstance(c, ast.Call) and len(c.args) == 1 and not c.keywords:
+            if isinstance(c.func, ast.Name) and c.func.id in ('all', 'any') and isinstance(c.args[0], (ast.GeneratorExp, ast.ListComp)):
+                sites.append((c, 'to_np'))
+                if isinstance(c.args[0], ast.GeneratorExp):
+                    sites.append((c, 'to_list'))
+            elif isinstance(c.func, ast.Attribute) and c.func.attr in ('all', 'any') and isinstance(c.func.value, ast.Name) and c.func.value.id in ('np', 'anp') and isinstance(c.args[0], ast.ListComp):
+                sites.append((c, 'to_builtin'))
+    if k >= len(sites):
+        return False
+    c, how = sites[k]
+    if how == 'to_np':
+        comp = c.args[0]
+        c.args[0] = fix(ast.ListComp(elt=comp.elt, generators=comp.generators), comp)
+        c.func = fix(ast.Attribute(value=ast.Name(id='np', ctx=ast.Load()), attr=c.func.id, ctx=ast.Load()), c.func)
+    elif how == 'to_list':
+        comp = c.args[0]
+        c.args[0] = fix(ast.ListComp(elt=comp.elt, generators=comp.generators), comp)
+    else:
+        comp = c.args[0]
+        c.args[0] = fix(ast.GeneratorExp(elt=comp.elt, generators=comp.generators), comp)
+        c.func = fix(ast.Name(id=c.func.attr, ctx=ast.Load()), c.func)
+    return True
+
+
+def rw_range_min_guard(func, k):
+    """for n in range(min(A, B + 1)): S    ->    for n in range(A): if B - n >= 0: S"""
+    sites = [n for n in ast.walk(func) if isinstance(n, ast.For) and isinstance(n.target, ast.Name) and isinstance(n.iter, ast.Call) and isinstance(n.iter.func, ast.Name) and n.iter.func.id == 'range'
+             and len(n.iter.args) == 1 and isinstance(n.iter.args[0], ast.Call) and isinstance(n.iter.args[0].func, ast.Name) and n.iter.args[0].func.id == 'min' and len(n.iter.args[0].args) == 2]
+    flat = [(n, v) for n in sites for v in (0, 1)]
+    if k >= len(flat):
+        return False
+    lp, v = flat[k]
+    a, b = lp.iter.args[0].args[v], lp.iter.args[0].args[1 - v]
+    if not (isinstance(b, ast.BinOp) and isinstance(b.op, ast.Add) and isinstance(b.right, ast.Constant) and b.right.value == 1):
+        return True
+    test = ast.Compare(left=ast.BinOp(left=b.left, op=ast.Sub(), right=ast.Name(id=lp.target.id, ctx=ast.Load())), ops=[ast.GtE()], comparators=[ast.Constant(value=0)])
+    lp.iter.args[0] = a
+    lp.body = [fix(ast.If(test=test, body=lp.body, orelse=[]), lp)]
+    return True
+
+
+GUIDED = [rw_extract_temp, rw_flatten_comp_filter, rw_first_of_concat, rw_split_tuple_assign, rw_augcomp_to_loop, rw_len_zero, rw_bool_ifexp, rw_singleton_comp, rw_ndenumerate_value, rw_flat_to_ndenumerate, rw_slice_zero, rw_flip_compare, rw_keyword_to_positional, rw_fstring_to_percent, rw_np_all_any, rw_range_min_guard, rw_pass_branch, rw_dictcomp_to_loop, rw_none_flag, rw_argcomp_to_loop, rw_hoist_return, rw_get_none, rw_else_after_exit_wrap, rw_else_after_exit_unwrap, rw_comp_to_loop, rw_loop_to_comp, rw_not_compare, rw_demorgan, rw_swap_branches, rw_merge_nested_if, rw_split_and_if, rw_guard_to_swapped_else, rw_swapped_else_to_guard, rw_drop_tail_return, rw_add_tail_return, rw_element_to_index_loop, rw_fuse_loops, rw_late_publication, rw_drop_tail_continue, rw_items_loop, rw_filter_loop, rw_loop_to_update, rw_is_false, rw_hoist_common_tail, rw_sink_common_tail, rw_ifexp_to_if, rw_if_to_ifexp, rw_bool_to_if, rw_kwargs_default, rw_trailing_return, rw_enumerate, rw_return_temp]
 
 
 def _clone(node):
